@@ -513,6 +513,9 @@ func (st *State) decide(c *Term) bool {
 	if v, ok := st.decided[c.ID]; ok {
 		return v
 	}
+	if v, ok := quickDecide(c); ok {
+		return v
+	}
 	panic(forkSignal{c})
 }
 
@@ -586,3 +589,21 @@ func (st *State) addPC(c *Term) {
 }
 
 func (st *State) top() *Frame { return st.frames[len(st.frames)-1] }
+
+// quickDecide settles comparisons whose outcome follows from syntactic value ranges.
+func quickDecide(c *Term) (bool, bool) {
+	if c.Op == "bvult" {
+		a, b := c.Args[0], c.Args[1]
+		if b.IsConst() && b.Big == nil {
+			if ub, ok := uboundSound(a); ok && ub < b.C {
+				return true, true
+			}
+		}
+		if a.IsConst() && a.Big == nil {
+			if ub, ok := uboundSound(b); ok && ub <= a.C {
+				return false, true
+			}
+		}
+	}
+	return false, false
+}
